@@ -30,6 +30,12 @@ CHECKS = {
         design="3/C04",
         technique="Lean 4 proof (mutual structural induction, list invariants) + structural model/code correspondence + exhaustive-assignment oracle on generated lists",
     ),
+    "C05": dict(
+        text="Lean 4 theorems over all signatures (any number of arguments, every nested tuple type, all widths), all values, all gate lists and all qubit maps of the codec model: bit naming has one name per bit; input_qubits = [0..n) and the j-th argument bit sits on qubit j; encode_input string reversed = concatenation of the little-endian element encodings in argument order, tuples depth-first (character j = qubit n-1-j); decode_output inverts that layout for every nested type (string/list readings; integer readings in the repaired model, and in the code as it is outside the decidable trigger); output_qubits defined iff every name of returns.bitvec is a key of the qubit map, then in range and in bitvec order, always defined for the repaired Return naming; decode_counts preserves the number of shots; end-to-end statement C05_statement proved from these with 'the circuit computes the bit-level function' (C02/C01) as hypothesis. Two defects carried as quirk flags with witnesses. Tied to the code on real compiled functions: every case pushed through encode_input, the real gate list (own classical simulator), output_qubits, decode_output and compared with the source exec'd on plain values; model compared exactly on names, strings, qubit lists, decoded values, merged counts.",
+        note="Partial with respect to the full end-to-end claim: what the compiled circuit computes (C02) and what the expressions mean (C01) are hypotheses of C05_statement, measured per case by the harness (mismatches there are counted and skipped, not reported by C05). Two open findings (return of a tuple-typed variable -> KeyError in output_qubits; decode_output(int) pads on the right). Names are modelled structurally (base, index path); printing them is assumed injective. The naming part of the compiler is modelled (add_qubit per input bit, map_qubit per expression with the real iret), not the choice of iret. Trusted: Lean kernel, harness oracle (own flattening/naming functions, exec of the source on plain ints), harness/circ.py classical simulator.",
+        design="3/C05",
+        technique="Lean 4 proof (mutual structural induction on nested types, list lemmas) + end-to-end model/code correspondence on compiled functions",
+    ),
     "C09": dict(
         text="Lean 4 theorems over all widths (Qint w, Qchar, Qfixed I/F) and all nested types: pattern and value round trips, const = runtime encoding, one-hot amplitude index, interpret_as_qtype inverts concatenated encodings; side conditions discharged on the type tables regenerated from qint.py/qfixed.py/qchar.py on every run; model tied to the code by exhaustive comparison over every shipped type x every bit pattern (w<=12) plus sampled Qint16 and nested types.",
         note="Trusted: Lean kernel (axioms propext, Classical.choice, Quot.sound only, audited per run), the ast-based table extractor, the correspondence harness, CPython float arithmetic being exact on dyadic rationals < 2^11. The theorems are about QV/Model/Types.lean, not the Python text.",
